@@ -79,7 +79,8 @@ def long_file(rng):
         if kw == 'OMIT' and rng.random() < 0.4:
             toks = ['OMIT', '-3', '55.5']       # else: OMIT with a (long) list of atom names, an instruction the library keeps as text
         body.append(toks)
-    fv = ['%.5f' % (1.0 if i == 0 else rng.uniform(0.05, 0.95)) for i in range(nfv)]
+    osf = rng.choice([1.0, 1.0, rng.uniform(0.11111, 1.99999)])        # the overall scale factor is seldom exactly one: lines of full width
+    fv = ['%.5f' % (osf if i == 0 else rng.uniform(0.05, 0.95)) for i in range(nfv)]
     if rng.random() < 0.5:
         lines += wrap_input(['FVAR'] + fv, rng)
     else:
